@@ -511,6 +511,10 @@ type Clause struct {
 	Tags  map[string]bool // e.g. "real" (modulo-real), "thorough"
 	Line  int
 	File  string
+	// FromIface: imported from the interface contract the function implements. Assumed: an "assumes" clause, a
+	// well-formedness assumption on the inputs that no caller is asked to establish (listed in the evidence).
+	FromIface bool
+	Assumed   bool
 }
 
 type LoopSpec struct {
@@ -536,6 +540,12 @@ type Contract struct {
 	Line     int
 	PanicsOK map[string]bool
 	Asserts  []*Clause // not used yet
+	// Implements names interface contracts ("iface Data.Run") this method must satisfy: their requires may be relied on,
+	// their ensures and modifies are checked against the body (behavioural subtyping).
+	Implements []string
+	implDone   bool
+	Covers     []*Clause
+	Locals     map[string]string
 }
 
 type LetDef struct {
@@ -708,6 +718,42 @@ func ParseContractText(pkg, file, text string) (*ContractFile, error) {
 			curLemma = &Lemma{Name: strings.TrimSpace(rest[:i]), Pkg: pkg, Vars: vars, File: file, Line: ln}
 			cur = nil
 			cf.Lemmas = append(cf.Lemmas, curLemma)
+		case "implements":
+			if cur == nil {
+				return nil, fmt.Errorf("%s:%d: implements outside func", file, ln)
+			}
+			cur.Implements = append(cur.Implements, strings.TrimSpace(rest))
+		case "local":
+			// local <name> <type>: <name> in this contract's clauses is the function's source-level local variable of that
+			// name or, if it was renamed, its only local of that type
+			fs := strings.Fields(rest)
+			if cur == nil || len(fs) < 2 {
+				return nil, fmt.Errorf("%s:%d: bad local directive", file, ln)
+			}
+			if cur.Locals == nil {
+				cur.Locals = map[string]string{}
+			}
+			cur.Locals[fs[0]] = strings.Join(fs[1:], " ")
+		case "covers":
+			// a situation that must be reachable at a normal return (vacuity guard for the clauses that talk about it)
+			c, err := parseClause(rest, file, ln)
+			if err != nil {
+				return nil, err
+			}
+			if cur == nil {
+				return nil, fmt.Errorf("%s:%d: covers outside func", file, ln)
+			}
+			cur.Covers = append(cur.Covers, c)
+		case "assumes":
+			c, err := parseClause(rest, file, ln)
+			if err != nil {
+				return nil, err
+			}
+			if cur == nil {
+				return nil, fmt.Errorf("%s:%d: assumes outside func", file, ln)
+			}
+			c.Assumed = true
+			cur.Requires = append(cur.Requires, c)
 		case "requires", "ensures":
 			c, err := parseClause(rest, file, ln)
 			if err != nil {
